@@ -42,14 +42,25 @@ InfoOf(c) ==
       emptied == HasEmptiedReq(r)
       \* the refusal rule (1-p)^200 <= 1e-9, i.e. p >= 0.0984468..., is evaluated by the library in floating point: a band on the exact
       \* fraction, tight for recipes of length <= 2 (entropies of a few bits: float32 error < 2e-6 relative), wide otherwise
-      lo == IF r.len <= 2 THEN 9838 ELSE 8500
-      hi == IF r.len <= 2 THEN 9851 ELSE 11000
-      scaled == Mul(num, FromInt(100000))
+      \* ... and for other attempt budgets mt (default limit 1e-9): p* = 1 - 10^(-9/mt), in units of 1e-7:
+      \* <<must refuse at or below (wide), must not refuse at or above (wide), the same two, tight>>; no verdict for budgets not listed
+      band == CASE c.maxTrials = 200 -> <<850000, 1100000, 983800, 985100>>
+                [] c.maxTrials = 5 -> <<8497160, 10996905, 9834818, 9847810>>
+                [] c.maxTrials = 50 -> <<2929572, 3791412, 3390758, 3395238>>
+                [] c.maxTrials = 199 -> <<853886, 1105089, 988309, 989615>>
+                [] c.maxTrials = 201 -> <<845820, 1094650, 978973, 980267>>
+                [] c.maxTrials = 350 -> <<496373, 642400, 574514, 575274>>
+                [] c.maxTrials = 2000 -> <<89000, 115184, 103011, 103148>>
+                [] OTHER -> <<0, 0, 0, 0>>
+      banded == band[1] > 0
+      lo == IF r.len <= 2 THEN band[3] ELSE band[1]
+      hi == IF r.len <= 2 THEN band[4] ELSE band[2]
+      scaled == Mul(num, FromInt(10000000))
   IN [r |-> r, aset |-> aset, aseq |-> SortedSeq(aset), A |-> A, reqs |-> ReqSets(r), live |-> LiveReq(r),
       refAllowed |-> \/ ~small \/ num = <<>> \/ emptied
-                     \/ c.failRateOne = 0 /\ c.maxTrials = 200 /\ Lt(scaled, Mul(den, FromInt(hi)))
-                     \/ c.failRateOne = 0 /\ c.maxTrials # 200,
-      refRequired |-> small /\ ~emptied /\ (num = <<>> \/ (c.failRateOne = 0 /\ c.maxTrials = 200 /\ Le(scaled, Mul(den, FromInt(lo)))))]
+                     \/ c.failRateOne = 0 /\ banded /\ Lt(scaled, Mul(den, FromInt(hi)))
+                     \/ c.failRateOne = 0 /\ ~banded,
+      refRequired |-> small /\ ~emptied /\ (num = <<>> \/ (c.failRateOne = 0 /\ banded /\ Le(scaled, Mul(den, FromInt(lo)))))]
 
 CellWhys(c) ==
   LET r == RecipeOf(c)
